@@ -15,6 +15,10 @@ checks = sys.argv[3:] or [sid[:3]]
 dst = "/verif/seeded/" + sid
 src = os.path.join(awt, "_seed")
 os.makedirs(dst, exist_ok=True)
+try:
+    prev_meta = json.load(open(os.path.join(dst, "meta.json")))
+except Exception:
+    prev_meta = {}
 for f in os.listdir(src):
     if os.path.isdir(os.path.join(src, f)):
         if f != "logs":
@@ -90,10 +94,13 @@ try:
     conf["checks"] = res
 finally:
     subprocess.run(["git", "-C", "/repo", "worktree", "remove", "--force", wt], capture_output=True)
-    for d in os.listdir("/verif/.build"):
-        if d.startswith("alt-"):
-            shutil.rmtree(os.path.join("/verif/.build", d), ignore_errors=True)
-    shutil.rmtree("/verif/out", ignore_errors=False) if False else None
+    import hashlib
+    shutil.rmtree(os.path.join("/verif/.build", "alt-" + hashlib.sha1(os.path.abspath(wt).encode()).hexdigest()[:10]), ignore_errors=True)
+prev = prev_meta.get("verified_by_maintainer") or {}
+if prev_meta.get("maintainer_note") and not meta.get("maintainer_note"):
+    meta["maintainer_note"] = prev_meta["maintainer_note"]
+if prev.get("checks") and conf.get("checks") is not None:
+    merged = dict(prev["checks"]); merged.update(conf["checks"]); conf["checks"] = merged
 meta["verified_by_maintainer"] = conf
 meta["repo_head"] = subprocess.check_output(["git", "-C", "/repo", "rev-parse", "--short", "HEAD"], text=True).strip()
 json.dump(meta, open(os.path.join(dst, "meta.json"), "w"), indent=1)
